@@ -10,6 +10,7 @@ import (
 	"sort"
 	"strconv"
 	"strings"
+	"time"
 
 	"golang.org/x/tools/go/ssa"
 )
@@ -45,13 +46,37 @@ func init() {
 }
 
 func runC18(p *Program, r *Reporter) {
-	c18Longpoll(p, r)
-	c18Continue(p, r)
-	c18ClientPage(p, r)
-	c18Keys(p, r)
-	c18Compat(p, r)
-	c18Stat(p, r)
-	c18Get(p, r)
+	t0 := time.Now()
+	step := func(name string, f func(*Program, *Reporter)) {
+		t := time.Now()
+		f(p, r)
+		if c18Debug {
+			fmt.Printf("DBG time %-14s %6.0f ms\n", name, float64(time.Since(t).Microseconds())/1000)
+		}
+	}
+	step("N-longpoll", c18Longpoll)
+	step("N-continue", c18Continue)
+	step("N-client-page", c18ClientPage)
+	step("N-keys", c18Keys)
+	step("N-compat", c18Compat)
+	step("N-stat", c18Stat)
+	step("N-get", c18Get)
+	// an effective body that exceeded the node budget was analysed with some
+	// calls left opaque: say so rather than pass silently
+	seenT := map[*c18X]bool{}
+	for _, x := range c18TruncatedGraphs {
+		if x.P == p && !seenT[x] {
+			seenT[x] = true
+			r.Undecided("N-compat", FuncKey(x.Root)+"#effective-body", p.Pos(x.Root.Pos()), fmt.Sprintf("the effective body of this function exceeds the analysis budget (%d nodes): calls beyond it were left opaque", c18MaxNodes))
+		}
+	}
+	c18TruncatedGraphs = nil
+	if c18Debug {
+		fmt.Printf("DBG time total %.0f ms\n", float64(time.Since(t0).Microseconds())/1000)
+		for _, x := range c18XCache[p] {
+			fmt.Printf("DBG graph %s truncated=%v\n", x, x.Truncated)
+		}
+	}
 }
 
 // ---------------------------------------------------------------------------
@@ -647,8 +672,13 @@ func c18Graph(p *Program, fn *ssa.Function) *c18X {
 	x.finish()
 	x.prune()
 	m[fn] = x
+	if x.Truncated {
+		c18TruncatedGraphs = append(c18TruncatedGraphs, x)
+	}
 	return x
 }
+
+var c18TruncatedGraphs []*c18X
 
 func (x *c18X) addCtx(c *c18Ctx) {
 	c.ID = len(x.Ctxs)
@@ -829,11 +859,28 @@ func c18TestedRight(c *ssa.Call) bool {
 
 // c18OwnPhiTested: block s branches on (or returns) one of its own phis.
 func c18OwnPhiTested(s *ssa.BasicBlock, inlined bool) bool {
+	return c18OwnPhiTestedN(s, inlined, 0)
+}
+
+func c18OwnPhiTestedN(s *ssa.BasicBlock, inlined bool, depth int) bool {
 	if len(s.Instrs) == 0 {
 		return false
 	}
 	if _, ok := s.Instrs[0].(*ssa.Phi); !ok {
 		return false
+	}
+	// a block of phis that only forwards to such a block (`a && (b || c)`: the
+	// || phi feeds the && phi)
+	if _, isJump := s.Instrs[len(s.Instrs)-1].(*ssa.Jump); isJump && depth < 3 {
+		only := true
+		for _, in := range s.Instrs[:len(s.Instrs)-1] {
+			switch in.(type) {
+			case *ssa.Phi, *ssa.DebugRef:
+			default:
+				only = false
+			}
+		}
+		return only && len(s.Succs) == 1 && c18OwnPhiTestedN(s.Succs[0], inlined, depth+1)
 	}
 	own := func(v ssa.Value) bool {
 		for i := 0; i < 3; i++ {
@@ -1443,6 +1490,52 @@ func (x *c18X) Same(a, b c18XV) bool {
 		}
 	}
 	return false
+}
+
+// MayBe: v may be the very value target: equal after canonicalisation, or a phi
+// / the result of an inlined call one of whose incoming / returned values may be.
+func (x *c18X) MayBe(v, target c18XV) bool {
+	target = x.Canon(target)
+	seen := map[c18XV]bool{}
+	var walk func(v c18XV, d int) bool
+	walk = func(v c18XV, d int) bool {
+		v = x.Canon(v)
+		if d > 16 || seen[v] {
+			return false
+		}
+		seen[v] = true
+		if c18SameXV(v, target) {
+			return true
+		}
+		switch t := v.V.(type) {
+		case *ssa.Phi:
+			for _, e := range t.Edges {
+				if walk(c18XV{v.Ctx, e}, d+1) {
+					return true
+				}
+			}
+		case *ssa.Call:
+			if rs, ok := x.returned(v.Ctx, t, 0); ok && t.Call.Signature().Results().Len() == 1 {
+				for _, r := range rs {
+					if walk(r, d+1) {
+						return true
+					}
+				}
+			}
+		case *ssa.Extract:
+			if c, ok := t.Tuple.(*ssa.Call); ok {
+				if rs, ok := x.returned(v.Ctx, c, t.Index); ok {
+					for _, r := range rs {
+						if walk(r, d+1) {
+							return true
+						}
+					}
+				}
+			}
+		}
+		return false
+	}
+	return walk(v, 0)
 }
 
 // Resolve returns the canonical value of v as seen in node n (clone bindings
@@ -2123,9 +2216,8 @@ func (x *c18X) Precedes(a, b c18XI) bool {
 
 type c18Assume func(n *c18XB, cond ssa.Value) (known, val bool)
 
-// Reach returns the instruction instances that may execute after xi (after
-// the first instruction of the nodes in from, when given) when the branch
-// conditions decided by assume are followed along the decided edge only.
+// Reach returns the instruction instances that may execute after xi when the
+// branch conditions decided by assume are followed along the decided edge only.
 func (x *c18X) Reach(xi c18XI, assume c18Assume) map[c18XI]bool {
 	out := map[c18XI]bool{}
 	seen := map[*c18XB]bool{}
@@ -2259,6 +2351,9 @@ func c18Liftable(p *Program, fn *ssa.Function) []*ssa.Function {
 	if !c18Inlinable(fn.Pkg, fn) || len(p.FuncValueUses(fn)) > 0 {
 		return nil
 	}
+	if fn.Signature.Recv() != nil && len(p.InvokeSites(fn)) > 0 {
+		return nil // may be reached through an interface
+	}
 	var out []*ssa.Function
 	seen := map[*ssa.Function]bool{}
 	for _, c := range p.StaticCallers(fn) {
@@ -2307,14 +2402,10 @@ func (x *c18X) PhiEdges(v c18XV) []c18PhiEdge {
 			if pn.Ctx != n.Ctx {
 				continue
 			}
-			// which SSA edges does pn stand for?
+			// the SSA edges pn stands for (both, when both branches of its If lead here)
 			for j, pb := range blk.Preds {
 				if pb != pn.B {
 					continue
-				}
-				if ifi := pn.ifInstr(); ifi != nil && len(pn.B.Succs) == 2 && pn.B.Succs[0] == pn.B.Succs[1] {
-					// both edges of an If lead here: the j-th occurrence belongs to the matching branch
-					_ = ifi
 				}
 				out = append(out, c18PhiEdge{x.resolveRaw(pn, ph.Edges[j]), pn, n, x.EdgeFacts(pn, n)})
 			}
@@ -2519,11 +2610,8 @@ func c18LongpollOne(p *Program, r *Reporter, x *c18X, key string, w c18XI) {
 			}
 		}
 	}
-	if c18Debug {
-		fmt.Printf("DBG longpoll %s: %s queries=%d deadline=%v before=%v waitAfter=%v again=%v\n", key, x, len(queries), deadline.V, anyBefore, waitAfter, again)
-		for _, q := range queries {
-			fmt.Printf("DBG   query %v ctx=%d nodes=%d\n", q.In, q.Ctx.ID, len(x.nodesOf[q]))
-		}
+	if os.Getenv("C18DEBUG") == "graph" {
+		x.dump()
 	}
 	r.Check(anyBefore, "N-longpoll", key+"#query-before-deadline", qpos,
 		"with long-poll requested and the deadline not yet passed, the storage query is reachable from entry",
@@ -3231,11 +3319,6 @@ func c18Stat(p *Program, r *Reporter) {
 			continue
 		}
 		nOver++
-		if c18Debug {
-			for _, f := range facts {
-				fmt.Printf("DBG over-limit reject %s: fact %v = %v (over=%v) at %s\n", c18Pos(p, rj.In), f.Cond, f.Val, overLimit(f), c18Pos(p, f.At.last()))
-			}
-		}
 		present := false
 		for _, f := range facts {
 			v, kind, pos, isStr, ok := x.cmpZero(f.At, f.Cond, f.Val)
@@ -3384,7 +3467,7 @@ func c18Get(p *Program, r *Reporter) {
 			}
 			cc := ci.Common()
 			if cc.IsInvoke() && cc.Method.Name() == "Close" {
-				return x.Same(x.resolveRaw(n, cc.Value), rcx)
+				return x.MayBe(x.resolveRaw(n, cc.Value), rcx)
 			}
 			return false
 		}
@@ -4079,32 +4162,38 @@ func c18ClientPage(p *Program, r *Reporter) {
 		"the request URL does not depend on the previous response's continueAfter value: every page would be the first page")
 	r.Check(afterPos, "N-client-page", key+"#after-key", site,
 		"the continuation value is sent as the after= parameter", "the continuation value is not placed after \"after=\" in the request URL")
-	guard := false
-	if c18Debug {
-		for _, c := range conts {
-			fmt.Printf("DBG cont read %v in ctx %d (%s) depth %d\n", c.In, c.Ctx.ID, c.Ctx.Fn.Name(), c.Ctx.Depth)
-			for cc := c.Ctx; cc != nil; cc = cc.Up {
-				fmt.Printf("DBG    ctx %d %s site=%v\n", cc.ID, cc.Fn.Name(), cc.Site)
-			}
+	// data dependence, or control dependence: a phi (chain) one of whose edges is
+	// taken under a fact about the member (`ok` of the lookup selects true/false)
+	var ctlDep func(v c18XV, depth int, seen map[c18XV]bool) bool
+	ctlDep = func(v c18XV, depth int, seen map[c18XV]bool) bool {
+		v = x.Canon(v)
+		if depth > 6 || seen[v] {
+			return false
 		}
-		for _, f := range x.FactsOf(rq.Call) {
-			fmt.Printf("DBG loop-guard fact %v=%v dep=%v\n", f.Cond, f.Val, x.Depends(x.resolveRaw(f.At, f.Cond), fromCont))
-			if ph, ok := f.Cond.(*ssa.Phi); ok {
-				rr := x.resolveRaw(f.At, f.Cond)
-				fmt.Printf("DBG    resolved %v ctx=%v bind=%v\n", rr.V, rr.Ctx != nil, len(f.At.Bind))
-				x.Depends(rr, func(y c18XV) bool { fmt.Printf("DBG      visit %v (%T)\n", y.V, y.V); return false })
-				for _, e := range ph.Edges {
-					xv := c18XV{f.At.Ctx, e}
-					fmt.Printf("DBG    edge %v (%T) ctx=%d produced=%v dep=%v\n", e, e, f.At.Ctx.ID, fromCont(xv), x.Depends(xv, fromCont))
-					if ex, ok := e.(*ssa.Extract); ok {
-						fmt.Printf("DBG    tuple %v child=%v\n", ex.Tuple, x.child[c18XI{f.At.Ctx, ex.Tuple.(*ssa.Call)}])
+		seen[v] = true
+		if x.Depends(v, fromCont) {
+			return true
+		}
+		if u, ok := v.V.(*ssa.UnOp); ok && u.Op == token.NOT {
+			return ctlDep(c18XV{v.Ctx, u.X}, depth+1, seen)
+		}
+		if _, ok := v.V.(*ssa.Phi); ok {
+			for _, e := range x.PhiEdges(v) {
+				for _, f := range e.Facts {
+					if x.Depends(x.resolveRaw(f.At, f.Cond), fromCont) {
+						return true
 					}
+				}
+				if ctlDep(e.Val, depth+1, seen) {
+					return true
 				}
 			}
 		}
+		return false
 	}
+	guard := false
 	for _, f := range x.FactsOf(rq.Call) {
-		if f.Val && x.Depends(x.resolveRaw(f.At, f.Cond), fromCont) {
+		if f.Val && ctlDep(x.resolveRaw(f.At, f.Cond), 0, map[c18XV]bool{}) {
 			guard = true
 		}
 	}
@@ -4286,9 +4375,6 @@ func c18Keys(p *Program, r *Reporter) {
 		s, ok := cx.ConstString(c18XV{xi.Ctx, lk.Index})
 		if !ok {
 			continue
-		}
-		if c18Debug && s == "continueAfter" {
-			cx.Depends(c18XV{xi.Ctx, lk.X}, func(y c18XV) bool { fmt.Printf("DBG      mvisit %v (%T) %s\n", y.V, y.V, y.V.Name()); return false })
 		}
 		// only maps decoded from the response to the enumerate request
 		if enumReq.In != nil && !cx.Depends(c18XV{xi.Ctx, lk.X}, func(y c18XV) bool { return y.V == ssa.Value(enumReq.In.(*ssa.Call)) && y.Ctx == enumReq.Ctx }) {
@@ -5064,4 +5150,41 @@ func c18Compat(p *Program, r *Reporter) {
 		}
 	}
 	r.Floor("N-compat", 3)
+}
+
+// dump prints the graph (development aid, C18DEBUG=graph).
+func (x *c18X) dump() {
+	fmt.Printf("=== %s\n", x)
+	for _, n := range x.Nodes {
+		fmt.Printf("n%d ctx%d(%s) b%d[%d:%d] var=%q idom=%v succs=", n.ID, n.Ctx.ID, n.Ctx.Fn.Name(), n.B.Index, n.Lo, n.Hi, n.Var, func() int {
+			if n.idom == nil {
+				return -1
+			}
+			return n.idom.ID
+		}())
+		for i, s := range n.Succs {
+			fmt.Printf("n%d/%d ", s.ID, n.Kinds[i])
+		}
+		if n.ifInstr() != nil {
+			t, f := -1, -1
+			if n.IfSucc[0] != nil {
+				t = n.IfSucc[0].ID
+			}
+			if n.IfSucc[1] != nil {
+				f = n.IfSucc[1].ID
+			}
+			fmt.Printf(" if %v ? n%d : n%d", n.ifInstr().Cond, t, f)
+		}
+		for k, v := range n.Bind {
+			fmt.Printf(" [%s:=%v]", k.Name(), v.V)
+		}
+		fmt.Println()
+		for k := n.Lo; k < n.Hi; k++ {
+			if v, ok := n.B.Instrs[k].(ssa.Value); ok {
+				fmt.Printf("      %s = %v\n", v.Name(), n.B.Instrs[k])
+			} else {
+				fmt.Printf("      %v\n", n.B.Instrs[k])
+			}
+		}
+	}
 }
